@@ -14,7 +14,7 @@ Proof.
   induction l as [|s r IH]; [reflexivity|]. cbn [read_segs].
   destruct (read_seg s) as [x|x|].
   - destruct (read_segs false r) as [[ss|]|]; [rewrite IH; reflexivity|exact I|rewrite IH; reflexivity].
-  - destruct r as [|s' r']; [reflexivity|].
+  - destruct r as [|s' r']; [exact I|].
     destruct (read_segs false (s' :: r')) as [[ss|]|]; [exact I|exact I|rewrite IH; reflexivity].
   - reflexivity.
 Qed.
@@ -28,14 +28,9 @@ Proof.
   destruct s1 as [|c1 rest1]; [reflexivity|].
   destruct (Ascii.eqb c1 "#"); [reflexivity|].
   destruct (is_slash c1 && match rest1 with [] => true | _ => false end); [reflexivity|].
-  assert (forall (ng : bool) (s2 : chars),
-            match s2 with
-            | [] => PUnsup
-            | _ => parse_body false ng s2
-            end <> PErr ->
-            match s2 with [] => PUnsup | _ => parse_body true ng s2 end =
-            match s2 with [] => PUnsup | _ => parse_body false ng s2 end) as K.
-  { intros ng s2. destruct s2 as [|c2 s2']; [reflexivity|]. unfold parse_body.
+  assert (forall (ng : bool) (s2 : chars), s2 <> [] ->
+            parse_body false ng s2 <> PErr -> parse_body true ng s2 = parse_body false ng s2) as K.
+  { intros ng s2 Hne. destruct s2 as [|c2 s2']; [contradiction|]. unfold parse_body.
     set (raw_segs := split_on is_slash (c2 :: s2')).
     set (anchored := match raw_segs with [] :: _ :: _ => true | _ => false end).
     set (body1 := if anchored then tl raw_segs else raw_segs).
@@ -47,7 +42,9 @@ Proof.
     - rewrite H. reflexivity.
     - intros Hc. exfalso. apply Hc. reflexivity.
     - rewrite H. reflexivity. }
-  destruct (Ascii.eqb c1 "!"); [apply (K true rest1)|apply (K false (c1 :: rest1))].
+  destruct (Ascii.eqb c1 "!").
+  - destruct rest1 as [|c2 r2]; [intros Hc; exfalso; apply Hc; reflexivity|]. apply (K true (c2 :: r2)). discriminate.
+  - apply (K false (c1 :: rest1)). discriminate.
 Qed.
 
 Lemma compile_indep ls ps : compile false ls = CPats ps -> compile true ls = CPats ps.
